@@ -60,3 +60,50 @@ package hopserver
 //@         arr(argof(hopserver.HopServer.AuthorizeKeyAuthGrant, user)) == arr(argof(hopserver.HopServer.AuthorizeKey, user)) &&
 //@         off(argof(hopserver.HopServer.AuthorizeKeyAuthGrant, user)) == off(argof(hopserver.HopServer.AuthorizeKey, user)) &&
 //@         len(argof(hopserver.HopServer.AuthorizeKeyAuthGrant, user)) == len(argof(hopserver.HopServer.AuthorizeKey, user))))
+
+// ---- C07: a delegate session can do only what its grants allow -----------
+//@ func thunks.TimeNow() (t time.Time)
+//@   assume the clock: an unconstrained instant
+//@   pure
+
+// checkCmd succeeds only by consuming ONE stored grant k that is already
+// effective and not yet expired at the instant the clock was read for it, and
+// that matches the request (shell grant for a shell; command grant with
+// byte-identical command text otherwise).  Exactly that grant is removed.
+//@ func (sess *hopSession) checkCmd(cmd string, shell bool) (id sessID, err error)
+//@   property C07
+//@   ensures err == nil ==> (exists k int :: 0 <= k && k < old(len(sess.authorizedActions)) &&
+//@        before(resultof(thunks.TimeNow, t), old(sess.authorizedActions[k].ExpTime)) &&
+//@        !before(resultof(thunks.TimeNow, t), old(sess.authorizedActions[k].StartTime)) &&
+//@        ((shell && old(sess.authorizedActions[k].GrantType) == authgrants.Shell) ||
+//@         (!shell && old(sess.authorizedActions[k].GrantType) == authgrants.Command &&
+//@          old(sess.authorizedActions[k].AssociatedData.CommandGrantData.Cmd) == cmd)) &&
+//@        len(sess.authorizedActions) == old(len(sess.authorizedActions)) - 1 &&
+//@        (forall j int :: 0 <= j && j < k ==> same(sess.authorizedActions[j], old(sess.authorizedActions[j]))) &&
+//@        (forall j int :: k <= j && j < len(sess.authorizedActions) ==> same(sess.authorizedActions[j], old(sess.authorizedActions[j+1]))))
+//@   ensures err != nil ==> len(sess.authorizedActions) == old(len(sess.authorizedActions)) && ref(sess.authorizedActions) == old(ref(sess.authorizedActions))
+
+// GetCmd reads the execution request from the tube.  It has no access to the
+// session object, so as a frame it changes only the tube (assumed; its decoding
+// is covered under C11/C18).
+//@ func codex.GetCmd(t) (cmd string, termEnv string, shell bool, size *pty.Winsize, err error)
+//@   assume frame only: GetCmd cannot reach the session object; it changes only state of the tube it reads from
+//@   modifies opaque(t)
+
+//@ func thunks.StartCmd(c) (err error)
+//@   assume process start (os/exec): outside the verified code
+
+//@ func thunks.LookupUser(username) (u, err)
+//@   assume passwd lookup: outside the verified code; changes no program state
+//@   pure
+//@   ensures err == nil ==> u != nil
+
+// A session admitted through authorization grants starts a process only after
+// checkCmd consumed a matching grant for exactly the requested command / shell.
+//@ func (sess *hopSession) startCodex(t1 *tubes.Reliable, t2 *tubes.Reliable)
+//@   property C07
+//@   ensures old(sess.usingAuthGrant) && (called(thunks.StartCmd) || called(pty.Start) || called(pty.StartWithSize)) ==>
+//@        called(hopserver.hopSession.checkCmd) && resultof(hopserver.hopSession.checkCmd, err) == nil
+//@   ensures old(sess.usingAuthGrant) && (called(thunks.StartCmd) || called(pty.Start) || called(pty.StartWithSize)) ==>
+//@        argof(hopserver.hopSession.checkCmd, shell) == resultof(codex.GetCmd, shell) &&
+//@        same(argof(hopserver.hopSession.checkCmd, cmd), resultof(codex.GetCmd, cmd))
